@@ -161,7 +161,9 @@ def build_fixture(rec, fd):
             v = new_value()
             rec.record("fx_setup_end", name, v)
             return v
-    func = make_func(fd["params"], impl, generator=bool(fd.get("generator")))
+    # half of the fixtures with a teardown part are "delegating": the fixture function is not itself a generator function, it
+    # RETURNS a generator (a helper, a decorated function ...): the framework must find that out from the value, at run time
+    func = make_func(fd["params"], impl, generator=bool(fd.get("generator")) and num(name) % 2 == 1)
     func.__name__ = name
     return Fixture(name, func, fd["scope"], list(fd["params"]), bool(fd.get("per_thread")))
 
